@@ -362,6 +362,51 @@ def pep8_layout(draw):
     return ''.join(out)
 
 
+# ---- list contexts x element shapes ----------------------------------------------------------
+# Most semantic rules of the error finder / PEP 8 checker are written against "a comma separated list in some context"
+# (arguments, parameters, targets, imported names, subscripts, displays, ...) and make assumptions about what an element
+# looks like.  This builder takes the product: any context x 0-4 elements of any shape (valid or not).
+LIST_CONTEXTS = ['f(%s)', 'x = f(%s)', 'f(a)(%s)', 'a.b(%s)', 'def f(%s): pass', 'async def f(%s): pass', 'lambda %s: 0',
+                 'class A(%s): pass', '%s = 1', '%s = y = 2', '%s += 1', 'x: %s = 1', 'del %s', 'for %s in y: pass',
+                 'async for %s in y: pass', 'with a as %s: pass', 'with %s: pass', 'with (%s): pass', 'import %s',
+                 'from m import %s', 'from m import (%s)', 'from . import %s', 'global %s', 'nonlocal %s', 'return %s', 'yield %s',
+                 'x = yield %s', 'await %s', 'x[%s]', 'x[%s] = 1', '[%s]', '{%s}', '(%s)', '[%s] = y', '(%s) = y',
+                 'print(%s, sep="")', '@d(%s)\ndef f(): pass', '@%s\nclass A: pass', '[x for %s in y]', '{k: v for %s in y}',
+                 '(x for x in %s)', 'assert %s', 'raise %s', 'raise E from %s', 'try: pass\nexcept (%s): pass',
+                 'try: pass\nexcept %s as e: pass', 'try: pass\nexcept* %s: pass', 'type X[%s] = int', 'def f[%s](): pass',
+                 'class A[%s]: pass', 'match x:\n case [%s]: pass', 'match x:\n case {%s}: pass', 'match x:\n case A(%s): pass',
+                 'match %s:\n case _: pass', 'f"{%s}"', "f'{x:{%s}}'", 'if %s: pass', 'while %s: pass', 'x = %s', 'x = *%s',
+                 'f(*%s)', 'f(**%s)', 'not %s', 'x if %s else y', 'lambda: %s', 'lambda x=%s: x', 'def f(a=%s): pass',
+                 'def f(a: %s): pass', 'def f() -> %s: pass']
+LIST_ELEMENTS = ['a', 'b', 'a.b', 'a[0]', 'a()', '(a)', '(a, b)', '[a, b]', '*a', '**k', '*a.b', '*(a)', '*a, b', 'a=1', 'b.c=1',
+                 '(y)=1', '-a=1', 'lambda: 1=1', 'a := 1', '(a := 1)', 'a: int', 'a: int = 1', 'a if b else c', 'None', 'True',
+                 '__debug__', '1', '"s"', 'b"s"', 'f"{a}"', '...', 'a for a in b', 'a async for a in b', 'await a', 'yield',
+                 '(yield)', 'yield a', '/', '*', '*, a', 'a, /', 'a as b', 'a.b as c', '(a as b)', '**k=1', '*a=1', 'a=b=1',
+                 'x for x in y if z', 'not a', '-a', 'a + b', 'a < b', 'a and b', '{a}', '{a: b}', '{**a}', '`a`', '$', '', 'a b',
+                 'def', 'class', 'a=', '=1', 'a=*b', 'a=**b', '*', '**', 'a.b=c', 'a[0]=1', 'a()=1', 'x.y as z', 'a = 1', '()',
+                 '[]', '{}', '1 + 1', '1 = 1', 'None = 1', 'True := 1', 'a.b := 1', 'a: b = c', '*a: int', '**k: int', 'a=1, b',
+                 'self', 'cls', 'T: int', '*Ts', '**P', 'T = int', 'a | b', '_', 'A()', 'a.b()', 'k=v', '"k": v', '**rest',
+                 'lambda: (yield)', 'lambda x: x', 'lambda *, x: x', 'async', 'await', 'print', 'exec', 'nonlocal', 'match', 'case']
+LIST_WRAPS = ['%s', '%s', '%s', 'def g():\n %s', 'async def g():\n %s', 'class C:\n %s', 'def g():\n def h():\n  %s',
+              'for q in z:\n %s', 'if 1:\n %s\nelse:\n pass', 'try:\n %s\nfinally:\n pass', 'class C:\n def m(self):\n  %s',
+              'async def g():\n async with a:\n  %s', 'lambda: [\n %s\n]' ]
+
+
+@st.composite
+def list_context(draw):
+    ctx = draw(st.sampled_from(LIST_CONTEXTS))
+    elems = draw(st.lists(st.sampled_from(LIST_ELEMENTS), min_size=0, max_size=4))
+    sep = draw(st.sampled_from([', ', ', ', ',', ' , ', ',\n  ']))
+    body = sep.join(elems) + draw(st.sampled_from(['', '', '', ',', ', ']))
+    stmt = ctx % body
+    wrap = draw(st.sampled_from(LIST_WRAPS))
+    if '\n' in stmt and wrap != '%s':
+        # re-indent a multi-line statement by the innermost indentation of the wrapper
+        ind = wrap[:wrap.index('%s')].split('\n')[-1]
+        stmt = stmt.replace('\n', '\n' + ind)
+    return wrap % stmt + draw(st.sampled_from(['\n', '\n', '', '\n\n', '\r\n']))
+
+
 def version():
     return st.sampled_from(VERSIONS)
 
@@ -383,6 +428,8 @@ def adversarial_text(max_frags=25, corpus_kinds=('repo',), weights=None, nest_de
         pep8_layout(),
         mutated(derived_text(), max_edits=2, weights=weights),
         snippet(),
+        list_context(),
+        st.lists(list_context(), min_size=2, max_size=3).map(''.join),
         mutated(snippet(), max_edits=2, weights=weights),
         st.builds(lambda a, b, nl: a + nl + b, snippet(), snippet(), st.sampled_from(['\n', '\n\n', '; ', '\r\n'])),
     )
